@@ -344,7 +344,26 @@ func checkC10(tier string) int {
 	bRuns := 0
 	t1 := time.Now()
 	var samples []any
-	for n := 0; n < nB; n++ {
+	// level B budget: sets with directory imports first (up to half of it), then the rest in order
+	var bSets []int
+	{
+		picked := map[int]bool{}
+		for n := 0; n < nSets && len(bSets) < nB/2; n++ {
+			for _, k := range sets[n].Kinds {
+				if k == "dir_import" {
+					bSets = append(bSets, n)
+					picked[n] = true
+					break
+				}
+			}
+		}
+		for n := 0; n < nSets && len(bSets) < nB; n++ {
+			if !picked[n] {
+				bSets = append(bSets, n)
+			}
+		}
+	}
+	for _, n := range bSets {
 		wg.Add(1)
 		go func(n int) {
 			defer wg.Done()
